@@ -108,7 +108,9 @@ def main():
         say("== %s: engine K (Kani %d harnesses) tier=%s" % (prop, len(hs), a.tier))
         kani_run.run_all(hs, logdir)
         playbacks = 0
-        for h in hs:
+        # cheapest harnesses first: their counter-examples extract and replay fastest; once one violation is confirmed natively,
+        # further extractions are capped at 10 minutes (the verdict of the check no longer depends on them)
+        for h in sorted(hs, key=lambda x: x.result.get("wall_s") or 0):
             r = h.result
             queries += 1
             total_checks += r.get("checks", 0)
@@ -148,7 +150,7 @@ def main():
                     continue
                 playbacks += 1
                 say("  replaying counter-example of %s natively ..." % h.name)
-                pb = kani_run.playback(h, logdir)
+                pb = kani_run.playback(h, logdir, cap_s=600 if violations else None)
                 samples[-1]["playback"] = pb.get("status")
                 if pb["status"] == "reproduced":
                     violations.append(("%s: %s" % (h.name, r.get("why")), pb["artefact"]))
